@@ -294,7 +294,7 @@ func c13BuildSpecials() {
 // ---------------------------------------------------------------- filter chains
 
 var c13Steps []c13E
-var c13Starts = []string{"s1", "n1", "bt", "l", "s2", "sp", "ng", "f1", "fbig", "sn", "nope", "se", "i64", "sbad"}
+var c13Starts = []string{"s1", "n1", "bt", "l", "selfname", "s2", "sp", "ng", "f1", "fbig", "sn", "nope", "se", "i64", "sbad"}
 
 const c13NStartsLen3 = 4
 
@@ -320,7 +320,7 @@ type c13Tagged struct {
 var c13Pairs []c13Tagged
 
 func c13BuildPairs() {
-	vars := []string{"n1", "n65", "i64", "i32", "u8", "f1", "fi", "f32", "fbig", "fsmall", "s1", "sn", "sf", "sb", "se", "sneg", "bt", "bf", "nl", "nope", "l", "m", "st", "ts"}
+	vars := []string{"n1", "n65", "i64", "i32", "u8", "f1", "fi", "f32", "fbig", "fsmall", "s1", "selfname", "sn", "sf", "sb", "se", "sneg", "bt", "bf", "nl", "nope", "l", "m", "st", "ts"}
 	lit := []c13E{c13Int(7), c13Int(65), c13Lit("i", "-3"), c13Lit("f", "2.5"), c13Lit("b", "true"), c13Lit("b", "false"), c13Str("zed"), c13Str("42"), c13Str("2.5"), c13Str("true")}
 	plain := map[string]string{"pStr": "plain", "pInt": "plain", "pI64": "plain", "pUint": "plain", "pF64": "plain", "pBool": "plain", "pAny": "plain",
 		"pVarS": "variadic", "pVarI": "variadic", "pCtxS": "ctx", "pCtxI": "ctx", "pErrS": "err", "pErrI": "err"}
